@@ -330,6 +330,11 @@ type TB interface {
 // fails the test.
 func Fail(t TB, c *Case, format string, args ...any) {
 	c.Note = fmt.Sprintf(format, args...)
+	if strings.Contains(c.Note, "harness:") {
+		// a defect of the machinery, never a violation of the property: the driver maps it to exit 2
+		t.Fatalf("HARNESS-ERROR in %s: %s\n  path: %q", c.Check, c.Note, c.Path)
+		return
+	}
 	if !utf8.ValidString(c.Path) {
 		c.PathRaw = []byte(c.Path)
 	}
